@@ -1110,6 +1110,116 @@ func childOne(in input) string {
 	return cs.One
 }
 
+// walkCells decodes the cells one right after the other by bare CellBytes calls
+// on this goroutine (nothing else of the check runs meanwhile) and checks each
+// text as well as that the text handed out for the previous cell is still what
+// it was. Counterexamples carry their predecessors (sequence replay).
+func walkCells(s *sink, class string, typ byte, meta uint16, cells []ref.Cell) int64 {
+	s.pred = nil
+	var prevGot []byte
+	var prevCell ref.Cell
+	var e int64
+	for _, cell := range cells {
+		why, got := checkPlain(cell.Raw, typ, meta, cell.Text)
+		e++
+		if why != "" {
+			s.fail(class, typ, meta, cell, why, got)
+			got = nil
+		} else if prevGot != nil && !bytes.Equal(prevGot, prevCell.Text) {
+			keep := s.pred
+			s.pred = nil
+			then := input{Type: typ, Meta: meta, Raw: append([]byte{}, cell.Raw...), Want: append([]byte{}, cell.Text...), TZ: s.zone, Plain: true}
+			s.failThen(class+":earlier-text-changed", typ, meta, prevCell, &then,
+				fmt.Sprintf("the text returned for it reads %q after the next cell (raw % x) was decoded", util.Clip(prevGot), cell.Raw))
+			s.pred = keep
+		}
+		prevGot, prevCell = got, cell
+		s.pred = &input{Type: typ, Meta: meta, Raw: append([]byte{}, cell.Raw...), Want: append([]byte{}, cell.Text...), TZ: s.zone, Plain: true,
+			Pred: trimChain(s.pred, histDepth-1)}
+	}
+	s.pred = nil
+	return e
+}
+
+// runWalks: sequential walks over neighbouring values of the types that do not
+// depend on the time zone: the same second with other fractions, the next and
+// the previous second / day, each value twice in a row, ascending and descending.
+func runWalks(r *chk.Run, s *sink, c *counters) {
+	type dt struct{ y, mo, d, h, mi, s int }
+	bases := []dt{{0, 0, 0, 0, 0, 0}, {1000, 1, 1, 0, 0, 0}, {1999, 12, 31, 23, 59, 59}, {2000, 2, 29, 12, 0, 0}, {2012, 6, 21, 15, 45, 17},
+		{5041, 2, 28, 23, 59, 59}, {5041, 3, 1, 0, 0, 0}, {9999, 12, 31, 23, 59, 58}, {9999, 12, 31, 23, 59, 59}}
+	fracs := []int{0, 765000, 123000, 999999, 1, 100000}
+	var e int64
+	both := func(class string, typ byte, meta uint16, cells []ref.Cell) {
+		e += walkCells(s, class, typ, meta, cells)
+		rev := make([]ref.Cell, len(cells))
+		for i, v := range cells {
+			rev[len(cells)-1-i] = v
+		}
+		e += walkCells(s, class, typ, meta, rev)
+	}
+	for _, fsp := range []int{0, 3, 6} {
+		var cells []ref.Cell
+		for _, b := range bases {
+			for _, ds := range []int{0, 0, 1, 0} { // same second, same again, the next one, back
+				for _, f := range fracs {
+					sec := b.s + ds
+					if sec > 59 {
+						sec = 58
+					}
+					micro := f
+					if fsp == 0 {
+						micro = 0
+					} else if fsp == 3 {
+						micro = f / 1000 * 1000
+					}
+					cells = append(cells, ref.VDateTimeFsp(fsp, b.y, b.mo, b.d, b.h, b.mi, sec, micro))
+				}
+			}
+		}
+		both(fmt.Sprintf("datetime2-walk:fsp%d", fsp), ref.TDateTime2, uint16(fsp), cells)
+		var tcells []ref.Cell
+		for _, h := range []int{0, 1, 23, 100, 838} {
+			for _, neg := range []bool{false, true, false} {
+				for _, f := range fracs {
+					micro := f
+					if fsp == 0 {
+						micro = 0
+					} else if fsp == 3 {
+						micro = f / 1000 * 1000
+					}
+					mi, se := 59, 58
+					if h == 838 {
+						micro = 0
+					}
+					tcells = append(tcells, ref.VTime2(fsp, neg, h, mi, se, micro))
+				}
+			}
+		}
+		both(fmt.Sprintf("time2-walk:fsp%d", fsp), ref.TTime2, uint16(fsp), tcells)
+	}
+	var dcells, ocells, t3cells []ref.Cell
+	for _, b := range bases {
+		for _, dd := range []int{0, 0, 1, 0} {
+			day := b.d + dd
+			if day > 28 && dd > 0 {
+				day = b.d - 1
+			}
+			dcells = append(dcells, ref.VDate3(b.y, b.mo, day))
+			ocells = append(ocells, ref.VDateTime8(b.y, b.mo, day, b.h, b.mi, b.s))
+		}
+	}
+	for _, h := range []int{0, 1, 23, 100, 838} {
+		for _, neg := range []bool{false, true, false} {
+			t3cells = append(t3cells, ref.VTimeOld(neg, h, 59, 58), ref.VTimeOld(neg, h, 59, 58), ref.VTimeOld(neg, h, 59, 59))
+		}
+	}
+	both("date-walk", ref.TDate, 0, dcells)
+	both("datetime-old-walk", ref.TDateTime, 0, ocells)
+	both("time-old-walk", ref.TTime, 0, t3cells)
+	c.evals.Add(e)
+}
+
 // ---- entry ------------------------------------------------------------------------------
 
 func run(r *chk.Run) {
@@ -1126,6 +1236,7 @@ func run(r *chk.Run) {
 		s.report()
 		walls[name] = float64(int(time.Since(t0).Seconds()*10)) / 10
 	}
+	phase("sequential walks", func() { runWalks(r, s, &c) })
 	phase("date", func() { runDates(r, s, &c) })
 	phase("time 3-byte", func() { runTime3(r, s, &c) })
 	capPhase(0.25)
